@@ -63,7 +63,8 @@ class OperatorGraphTemplate(AbstractBaseTemplate):
                     operator_template = self._load_operator_template(op)
                 except TypeError:
                     operator_template = op
-                self.operators[operator_template] = variations
+                # own copy: the variations dict may belong to the caller or to the template this one is derived from
+                self.operators[operator_template] = dict(variations) if variations else {}
                 self._op_map[operator_template.name] = operator_template
 
     def __getitem__(self, item):
